@@ -160,14 +160,18 @@ func memberData() map[string]model.Value {
 		"arr": model.Arr(model.Int(7), model.Int(-8), model.Int(9)),
 		"o": model.Obj(map[string]model.Value{
 			"n": model.Int(3), "a": model.Arr(model.Int(4), model.Int(-5)), "Neg": model.Float(-2.5),
-			"o": model.Obj(map[string]model.Value{"n": model.Int(-6), "a": model.Arr(model.Int(1))}),
+			// a key and its capitalised twin: the spelled key is the one read
+			"N": model.Int(40), "A": model.Str("twin"),
+			"o": model.Obj(map[string]model.Value{"n": model.Int(-6), "a": model.Arr(model.Int(1)), "N": model.Float(0.5)}),
 		}),
+		"none": model.Arr(),
 	}
 }
 
 var memberBases = []model.Expr{
 	model.Var{Name: "x"}, model.Var{Name: "f"}, model.Var{Name: "arr"}, model.Var{Name: "o"},
 	model.Lit{V: model.Int(5)}, model.Lit{V: model.Float(2.5)}, model.Var{Name: "t"},
+	model.Var{Name: "none"}, model.ArrLit{},
 }
 
 // unary-ish operators applied in chains
